@@ -33,6 +33,26 @@ CLAIMED = {
     note="Types covered so far are listed in evidence samples (A, AAAA, DS, CDS, DNSKEY, CDNSKEY, HINFO, TXT, SSHFP, TLSA, OPENPGPKEY, NULL, unknown; compose side of MX, SRV, SOA, NS, CNAME, PTR, DNAME). Octet fields are 0..3 symbolic octets; embedded names have a concrete label structure with symbolic content. The parse side of name-bearing types goes through ParsedName::parse_ref, which CBMC cannot execute even on concrete input (DESIGN section 2), so 'wire -> value -> wire' for those types, SVCB, NSEC/NSEC3/RRSIG, NAPTR, IPSECKEY, OPT are outside the claim.",
     technique=KANI + "; round trip + differential against an independent wire layout written in the harness",
     ref="DESIGN.md §4 C05"),
+ "C02": dict(
+    text="Pointer fidelity of name compression is decided in two lemmas: (A) for every usize position, the static compressor and the hash compressor's entry constructor remember a position only if it fits a 14-bit pointer, and truncation forgets exactly the positions at or beyond the new length; (B) for two names with symbolic label content appended through StaticCompressor, an independent RFC 1035 reader reconstructs exactly the appended names and pointers are only emitted for equal suffixes. Builder bookkeeping (failed push leaves octets and counts untouched, push limit, rewind, stream length prefix) is a thorough-tier harness.",
+    note="A+B give fidelity at all offsets for the static compressor because its lookup does not depend on the absolute offset other than through the pointer encoding (argument, not solver result). TreeCompressor/HashCompressor beyond their position guards (hashbrown), BytesMut/Vec targets, op sequences longer than the scripted one, and messages beyond 72 octets are outside the claim. The builder-ops harness needs > 10 M SAT variables and may end 'not decided' (reported as inconclusive, never as pass).",
+    technique=KANI + "; guard lemmas via cfg-guarded hooks + differential against an independent RFC 1035 name reader",
+    ref="DESIGN.md §4 C02"),
+ "C11": dict(
+    text="The MAC-independent kernels of TSIG: the time-window predicate equals |now - signed| <= fudge over the integers for all 48-bit times and 16-bit fudges (no wrap at 0 or 2^48-1), Time48 wire encoding round-trips, out-of-range times are rejected.",
+    note="Everything involving a MAC (honest exchanges verify, tamper rejection, RFC 8945 digest layout, sequences, ID restoration) depends on ring's HMAC (FFI/assembly) and is outside the claim; rejection of all tampering reduces to HMAC unforgeability, which is not an SMT question.",
+    technique=KANI + " on the loop-free integer kernels",
+    ref="DESIGN.md §4 C11"),
+ "C12": dict(
+    text="Dnskey::key_tag equals RFC 4034 Appendix B (incl. B.1 for algorithm 1) for all flags/protocol/algorithm values and all keys up to the stated length.",
+    note="Signed-data construction (signer vs validator vs RFC 4034 3.1.8.1), signature generation/verification and DS digests (ring) are not covered by a harness yet / out of reach; see DESIGN.",
+    technique=KANI + "; differential against an independent Appendix B implementation",
+    ref="DESIGN.md §4 C12"),
+ "C13": dict(
+    text="The NSEC type-bitmap builder: for symbolic record types (any window, any bit) added in any order, contains(t) <=> t was added, the wire form is well-formed per RFC 4034 4.1.2 (strictly ascending windows, length 1..32, last octet non-zero) and is accepted by the library's own validator.",
+    note="Quick: 1 type, or 2 types in one window; thorough: 2-3 types in distinct windows and the iterator. generate_nsecs / generate_nsec3s (SortedRecords, ring SHA-1) are outside the claim.",
+    technique=KANI + "; differential against an independent RFC 4034 4.1.2 bitmap reader",
+    ref="DESIGN.md §4 C13"),
 }
 
 NA = {
